@@ -20,12 +20,12 @@ DEF_MB = {6: 2, 9: 3, 12: 4}
 def random_configs(rng, n):
     out = []
     for cid in range(1, n + 1):
-        q = rng.choice([1, 2, 4, 6, 8])
+        q = rng.choice([1, 2, 2, 4, 6, 8])
         # measures tile the timeline; bar lengths from the signatures in force (integral in q), some irregular
         ts = {}
         measures = []
         t = 0
-        nm = rng.randint(1, 6)
+        nm = rng.randint(1, 6) if q <= 2 else rng.randint(1, 4)
         b, bt = rng.choice(TSALL)
         while (q * 4 * b) % bt:
             b, bt = rng.choice(TSALL)
